@@ -33,13 +33,25 @@ var workload = []lww.Batch{
 	{I("b", 2), D("a"), I("c", 2), I("c", 3), S(3)},
 	{I("a", 3), D("c"), S(4)},
 }
-var ids = []string{"a", "b", "c", "zz"}
+
+// partial: every batch obsoletes only part of the previous batch's segment, so segments stay in
+// the root with a deletion bitmap (in workload above every batch wipes its predecessor completely
+// and the emptied segment is dropped from the root).
+var partial = []lww.Batch{
+	{I("a", 1), I("b", 1), S(1)},
+	{I("a", 2), I("c", 1), I("d", 1), S(2)},
+	{I("c", 2), D("d"), I("e", 1), I("e", 2), S(3)},
+	{I("a", 3), D("b"), I("e", 3), S(4)},
+}
+var ids = []string{"a", "b", "c", "d", "e", "zz"}
 var keys = []string{"seq"}
 
-func modelAfter(q int) *lww.Model {
+func modelAfter(q int) *lww.Model { return modelOf(workload, q) }
+
+func modelOf(wl []lww.Batch, q int) *lww.Model {
 	m := lww.New()
 	for j := 0; j < q; j++ {
-		m.Apply(workload[j])
+		m.Apply(wl[j])
 	}
 	return m
 }
@@ -50,6 +62,7 @@ type cfg struct {
 	startAt int // the copy thread starts after this many acknowledged batches
 	batches int
 	conf    map[string]interface{}
+	wl      []lww.Batch // nil = workload
 }
 
 func zapFiles(store string) []string {
@@ -65,6 +78,10 @@ func zapFiles(store string) []string {
 }
 
 func body(k cfg) func(c *drv.Ctx) {
+	wl := k.wl
+	if wl == nil {
+		wl = workload
+	}
 	return func(c *drv.Ctx) {
 		src := c.Dir + "/src"
 		var idx bleve.Index
@@ -83,7 +100,7 @@ func body(k cfg) func(c *drv.Ctx) {
 			defer wg.Done()
 			for j := 1; j <= k.batches; j++ {
 				b := idx.NewBatch()
-				lww.Fill(b, workload[j-1])
+				lww.Fill(b, wl[j-1])
 				submitted = j
 				if err := idx.Batch(b); err != nil {
 					c.Fail("error:batch", "Batch: %v", err)
@@ -136,7 +153,7 @@ func body(k cfg) func(c *drv.Ctx) {
 				if v != nil {
 					q, _ = strconv.Atoi(string(v))
 				}
-				if bad := modelAfter(q).Check(ci, ids, keys); len(bad) > 0 {
+				if bad := modelOf(wl, q).Check(ci, ids, keys); len(bad) > 0 {
 					c.Fail("copy-not-a-whole-batch-state", "copy #%d claims batch %d but: %s", n, q, strings.Join(bad, "; "))
 				}
 				if q < x.lo {
@@ -162,7 +179,7 @@ func body(k cfg) func(c *drv.Ctx) {
 				}
 			}
 			// the source is unaffected
-			if bad := modelAfter(k.batches).Check(idx, ids, keys); len(bad) > 0 {
+			if bad := modelOf(wl, k.batches).Check(idx, ids, keys); len(bad) > 0 {
 				c.Fail("source-affected", "source after the copy: %s", strings.Join(bad, "; "))
 			}
 			sc := bx.Scorch(idx)
@@ -329,6 +346,131 @@ func bodySlowBuilder(useBuilder bool) func(c *drv.Ctx) {
 	}
 }
 
+// ---- backup of a root that still holds unpersisted segments whose documents were already
+// obsoleted by later acknowledged batches: the persister is parked at its idle point (public event
+// callback, EventKindPurgerCheck) after batch 1; batches 2 and 3 (unsafe: acknowledged once
+// introduced) land in memory, batch 3 obsoleting documents of batch 2's segment; then the copy is
+// taken while a fourth batch arrives and the persister resumes, in every order.
+
+type idleGateT struct {
+	armed   bool
+	parked  chan int
+	release chan int
+}
+
+var idleGate *idleGateT
+
+func init() {
+	scorch.RegistryEventCallbacks["verif-c14-persister-idle-gate"] = func(e scorch.Event) bool {
+		if g := idleGate; g != nil && g.armed && e.Kind == scorch.EventKindPurgerCheck {
+			g.armed = false
+			vrt.Send(g.parked, 1)
+			vrt.Recv(g.release)
+		}
+		return true
+	}
+}
+
+func bodyUnpersisted(workers int) func(c *drv.Ctx) {
+	return func(c *drv.Ctx) {
+		src := c.Dir + "/src"
+		g := &idleGateT{parked: make(chan int, 1), release: make(chan int, 1)}
+		idleGate = g
+		defer func() { idleGate = nil }()
+		conf := map[string]interface{}{"unsafe_batch": true, "eventCallbackName": "verif-c14-persister-idle-gate"}
+		if workers > 1 {
+			conf["scorchPersisterOptions"] = map[string]interface{}{"NumPersisterWorkers": workers, "MaxSizeInMemoryMergePerWorker": 1}
+		}
+		var idx bleve.Index
+		vrt.Free(func() {
+			var err error
+			idx, err = bleve.NewUsing(src, bleve.NewIndexMapping(), scorch.Name, scorch.Name, conf)
+			if err != nil {
+				panic(err)
+			}
+			vrt.WaitIdle()
+		})
+		acked, submitted := 0, 0
+		do := func(j int) {
+			b := idx.NewBatch()
+			lww.Fill(b, partial[j-1])
+			submitted = j
+			if err := idx.Batch(b); err != nil {
+				c.Fail("error:batch", "Batch: %v", err)
+			}
+			acked = j
+		}
+		g.armed = true
+		do(1)
+		vrt.Recv(g.parked) // batch 1 persisted; the persister is parked at its idle point
+		do(2)
+		do(3)
+		vrt.WaitIdle()
+		if st, err := bx.Scorch(idx).VerifFileState(); err == nil {
+			c.Observe(fmt.Sprintf("root-before-copy:mem=%d,with-deletions=%d", st.MemSegments, st.MemSegmentsWithDeletions))
+			if st.MemSegmentsWithDeletions == 0 {
+				c.Count("scenario_precondition_missed", 1)
+			}
+		}
+		lo, hi := 0, 0
+		var cerr error
+		var wg vrt.WaitGroup
+		wg.Add(3)
+		vrt.Go(func() {
+			defer wg.Done()
+			do(4)
+		})
+		vrt.Go(func() {
+			defer wg.Done()
+			lo = acked
+			cerr = idx.(bleve.IndexCopyable).CopyTo(bleve.FileSystemDirectory(c.Dir + "/dst"))
+			hi = submitted
+		})
+		vrt.Go(func() {
+			defer wg.Done()
+			vrt.Send(g.release, 1)
+		})
+		wg.Wait()
+		vrt.WaitIdle()
+		vrt.Free(func() {
+			if cerr != nil {
+				c.Fail("copyto-error", "the backup failed: %v", cerr)
+			} else if ci, err := bleve.Open(c.Dir + "/dst"); err != nil {
+				c.Fail("copy-does-not-open", "the backup does not open: %v", err)
+			} else {
+				v, _ := ci.GetInternal([]byte("seq"))
+				q := 0
+				if v != nil {
+					q, _ = strconv.Atoi(string(v))
+				}
+				if bad := modelOf(partial, q).Check(ci, ids, keys); len(bad) > 0 {
+					c.Fail("copy-not-a-whole-batch-state", "backup claims batch %d but: %s", q, strings.Join(bad, "; "))
+				}
+				if q < lo || q > hi {
+					c.Fail("copy-outside-window", "backup is at batch %d, outside [%d acknowledged before it began, %d submitted when it ended]", q, lo, hi)
+				}
+				c.Observe(fmt.Sprintf("copy@%d", q))
+				ci.Close()
+			}
+			if bad := modelOf(partial, 4).Check(idx, ids, keys); len(bad) > 0 {
+				c.Fail("source-affected", "source after the backup: %s", strings.Join(bad, "; "))
+			}
+			if err := idx.Close(); err != nil {
+				c.Fail("error:close", "Close: %v", err)
+			}
+			// the source reopens with everything that was persisted before Close
+			if re, err := bleve.Open(src); err != nil {
+				c.Fail("source-does-not-reopen", "source after Close: %v", err)
+			} else {
+				if bad := modelOf(partial, 4).Check(re, ids, keys); len(bad) > 0 {
+					c.Fail("source-affected", "source reopened after the backup: %s", strings.Join(bad, "; "))
+				}
+				re.Close()
+			}
+		})
+	}
+}
+
 var aggressive1 = map[string]interface{}{"scorchMergePlanOptions": bx.AggressiveMergePlan, "numSnapshotsToKeep": 1}
 var unsafeAgg = map[string]interface{}{"scorchMergePlanOptions": bx.AggressiveMergePlan, "numSnapshotsToKeep": 1, "unsafe_batch": true}
 
@@ -341,9 +483,13 @@ func Scenarios() []drv.Scenario {
 	d2 := []drv.Phase{{Bound: 1}, {Bound: 2, Filter: "restricted"}}
 	return []drv.Scenario{
 		mk(cfg{name: "copy-after-batch1", copies: 1, startAt: 1, batches: 3, conf: aggressive1}, d1r, d2),
+		mk(cfg{name: "copy-after-batch1-segments-keep-live-documents", copies: 1, startAt: 1, batches: 4, conf: aggressive1, wl: partial}, nil, d2),
+		mk(cfg{name: "copy-from-start-unsafe-segments-keep-live-documents", copies: 1, startAt: 0, batches: 4, conf: unsafeAgg, wl: partial}, nil, d2),
 		mk(cfg{name: "copy-from-start-unsafe", copies: 1, startAt: 0, batches: 3, conf: unsafeAgg}, d1r, d2),
 		{Name: "slow-backup-of-builder-made-index", Body: bodySlowBuilder(true), Quick: d1r, Thorough: d2, Class: "backup", MaxSteps: 1500000},
 		{Name: "slow-backup-unsafe", Body: bodySlowBuilder(false), Quick: d1r, Thorough: d2, Class: "backup", MaxSteps: 1500000},
+		{Name: "backup-of-unpersisted-segments-with-obsoleted-documents-unsafe", Doc: "persister parked idle after batch 1; batches 2,3 in memory (3 obsoletes documents of 2); then CopyTo ∥ batch 4 ∥ persister resumes", Body: bodyUnpersisted(1), Quick: d1r, Thorough: d2, Class: "backup", MaxSteps: 1500000},
+		{Name: "backup-of-unpersisted-segments-2-persister-workers-unsafe", Doc: "same with two persister workers merging in memory", Body: bodyUnpersisted(2), Quick: nil, Thorough: d1, Class: "backup", MaxSteps: 1500000},
 		mk(cfg{name: "two-copies-after-batch1", copies: 2, startAt: 1, batches: 4, conf: aggressive1}, nil, d1),
 		mk(cfg{name: "copy-after-batch2", copies: 1, startAt: 2, batches: 4, conf: aggressive1}, nil, d1),
 	}
